@@ -1,9 +1,96 @@
-(* C06 -- the AMF0 wire format is the specification's. *)
-From Verif Require Import Lib.Base Lib.Sx Model.Amf0 Proofs.Amf0.
+(* C06 -- the AMF0 wire format is the one defined by the AMF0 specification.
+   Property theorems only; proofs are in Proofs/Amf0Spec.v (and Proofs/Amf0.v).
+
+   [enc]/[decode] model the library (Model/Amf0.v, transcribed from amf0/amf0.go; marker values
+   regenerated from the source on every run).  [spec_enc]/[spec_decode] are an independent codec
+   written from amf0_spec_121207 section 2 with the marker numbers of the specification as
+   literals; [spec_decode p] returns the value and the remaining input.  [no_strictb v]: the tree
+   contains no strict array with >= 1 element -- the library's strict array is keyed (recorded
+   finding strict-array-keyed-layout, c06_strict_refuted below), everything else is covered.
+   Trees are otherwise arbitrary: any nesting, key order, repeated/empty keys, any ECMA count. *)
+From Verif Require Import Lib.Base Lib.Sx Model.Amf0 Proofs.Amf0 Proofs.Amf0Spec Proofs.Amf0Fast.
+From Verif Require Import Gen.Gen_amf0.
 Open Scope N_scope.
 
-Theorem c06_placeholder_witness :
-  decode [3; 0;1;97; 5; 0;1;97; 5; 0;0;9] = Ok (AObj [([97], ANull); ([97], ANull)], 12).
-Proof. exact dupkey_witness. Qed.
+(* 1. Bytes the library produces are decoded to the same value by the specification's decoder,
+   which stops exactly at the end of the value. *)
+Theorem c06_lib_to_spec v rest : wf_amf v -> no_strictb v = true ->
+  spec_decode (enc v ++ rest) = Some (v, rest).
+Proof. exact (lib_to_spec v rest). Qed.
 
-Print Assumptions c06_placeholder_witness.
+(* 2. The specification's encoding of a value is decoded by the library to that value, and
+   Size() is its length. *)
+Theorem c06_spec_to_lib v rest : wf_amf v -> no_strictb v = true ->
+  decode (spec_enc v ++ rest) = Ok (v, size v).
+Proof. exact (spec_to_lib v rest). Qed.
+
+Theorem c06_same_bytes v : wf_amf v -> no_strictb v = true -> spec_enc v = enc v.
+Proof. exact (spec_enc_eq v). Qed.
+
+(* 2'. ANY specification-conformant encoding -- whatever an independent encoder emits that the
+   specification's decoder reads as the value v: other non-zero bytes for true, an ECMA count
+   that is not the number of pairs, repeated keys -- is decoded by the library to v, with
+   Size() = the number of bytes the value occupies; and conversely everything the library
+   accepts as such a value is read identically by the specification. *)
+Theorem c06_spec_to_lib_bytes fuel p v rest : spec_dec fuel p = Some (v, rest) -> no_strictb v = true ->
+  decode p = Ok (v, size v) /\ lenN p = size v + lenN rest.
+Proof. exact (spec_to_lib_bytes fuel p v rest). Qed.
+
+Theorem c06_lib_to_spec_bytes fuel p v n : dec fuel p = Ok (v, n) -> no_strictb v = true ->
+  exists rest, spec_decode p = Some (v, rest) /\ lenN p = n + lenN rest.
+Proof. exact (lib_to_spec_bytes fuel p v n). Qed.
+
+(* 3. Markers.  The library's supported set is the specification's {0,1,2,3,5,6,8,10} (marker
+   table regenerated from the source); every other first byte -- all 248 of them, and in fact
+   every other number -- is reported as an error whatever follows, never skipped or sized. *)
+Theorem c06_markers m : m < 256 -> spec_supportedb m = false ->
+  forall fuel r, exists e, dec fuel (m :: r) = Err e.
+Proof. intros _ H fuel r. apply unsupported_marker_is_error. rewrite supported_same. exact H. Qed.
+
+(* the sweep over all 256 first bytes, against the Discovery function GENERATED from the source
+   (Gen_amf0.amf0_Discovery: (constructor name, is-error)): the model's dispatch fails with a
+   marker error exactly where the generated function does, and the generated function accepts
+   exactly the supported markers and ObjectEnd (whose UnmarshalBinary then always fails). *)
+Theorem c06_markers_generated m : m < 256 ->
+  gen_marker_err m = model_marker_err m /\
+  gen_marker_err m = negb (spec_supportedb m || (m =? 9)).
+Proof. exact (markers_generated m). Qed.
+
+(* 4. The recorded finding: strict arrays.  The specification's encoding of [1.0] is rejected by
+   the library; the library's encoding of the same array is mis-read by the specification's
+   decoder as a different number with two bytes left over; with a non-empty key it is rejected. *)
+Theorem c06_strict_refuted :
+  let one := ANum 4607182418800017408 in
+  wf_amf (AStrict [([], one)]) /\
+  decode (spec_enc (AStrict [([], one)])) = Err E_SHORT /\
+  spec_decode (enc (AStrict [([], one)])) = Some (AStrict [([], ANum 70300024700928)], [0; 0]) /\
+  spec_decode (enc (AStrict [([97], ANull)])) = None.
+Proof. vm_compute. repeat split; reflexivity. Qed.
+
+(* 5. The library decoder the harness executes (extracted [decode_fast]) is [decode]. *)
+Theorem c06_model_fast p : decode_fast p = decode p.
+Proof. exact (decf_eq p). Qed.
+
+(* non-vacuity of 1./2.: a nested tree with a repeated key, an empty key, an ECMA array whose
+   count differs from its length and an empty strict array *)
+Example c06_nonvacuous :
+  let v := AObj [([97], AEcma 7 [([], ANum 9218868437227405313); ([98], AStrict [])]);
+                 ([97], AStr [0; 0; 9]); ([], ABool true)] in
+  wf_amf v /\ no_strictb v = true /\ spec_decode (enc v ++ [9]) = Some (v, [9]).
+Proof. vm_compute. repeat split; reflexivity. Qed.
+
+(* non-vacuity of 2'.: a non-canonical boolean (0x80) inside an ECMA array *)
+Example c06_bytes_nonvacuous :
+  spec_decode [8; 0;0;0;9; 0;1;97; 1;128; 0;0;9] = Some (AEcma 9 [([97], ABool true)], []) /\
+  decode [8; 0;0;0;9; 0;1;97; 1;128; 0;0;9] = Ok (AEcma 9 [([97], ABool true)], 13).
+Proof. vm_compute. split; reflexivity. Qed.
+
+Print Assumptions c06_lib_to_spec.
+Print Assumptions c06_spec_to_lib.
+Print Assumptions c06_same_bytes.
+Print Assumptions c06_spec_to_lib_bytes.
+Print Assumptions c06_lib_to_spec_bytes.
+Print Assumptions c06_markers.
+Print Assumptions c06_markers_generated.
+Print Assumptions c06_strict_refuted.
+Print Assumptions c06_model_fast.
